@@ -235,8 +235,12 @@ def r3(rep, fx):
 
 def r4(rep, fx):
     tracked = awrite.state_tracked(fx)
-    W = awrite.all_field_writes(fx, 'state', tracked)
-    far = fx.need('state::State::fetch_and_run')
+    W = dict(awrite.all_field_writes(fx, 'state', tracked))
+    from .. import inline
+    fx.need('state::State::fetch_and_run')
+    far = inline.View(fx)('state::State::fetch_and_run')     # per-opcode helpers that no rule names are looked through
+    if far is not fx.fns['state::State::fetch_and_run']:
+        W[far.name] = awrite.field_writes(fx, far, tracked)
     memo = {}
 
     def effect(c, field, kind, stack=()):
